@@ -113,7 +113,7 @@ def _sim_task(t):
     if do_mid:
         qp = k.quiescent_points
         start = qp[len(pre)] if len(qp) > len(pre) else 0
-        for idx in range(start, k.npoints):
+        for idx in range(start, min(k.npoints, start + 400)):      # bounded also when a broken master produces thousands of points
             for ev in MID:
                 k2, o2 = sim_execute(params, script, inject={idx: ev})
                 out["runs"] += 1
